@@ -1,6 +1,6 @@
 # Human-written metadata per check for MANIFEST.json.
 ENGINES = [
-    {"name": "meshx", "path": "/verif/kit (world.go, node.go, conn.go)", "serves_properties": ["C01", "C04", "C06", "C07", "C08", "C09", "C10"],
+    {"name": "meshx", "path": "/verif/kit (world.go, node.go, conn.go)", "serves_properties": ["C01", "C04", "C05", "C06", "C07", "C08", "C09", "C10"],
      "kind_free_text": "event-level explorer over a world of real routers (real state/peering/switch/router modules per node) wired by virtual links or adversary-owned connections; one event = one synchronous call into the real handlers, virtual time via testing/synctest"},
     {"name": "seqx", "path": "/verif/kit (bfs.go) + /verif/checks/*", "serves_properties": ["C01", "C02", "C03", "C11", "C12", "C17", "C18", "C19"],
      "kind_free_text": "sequential bounded-exhaustive / explicit-state explorer over the real objects (fresh object + replay per path, canonical state hash)"},
@@ -58,6 +58,13 @@ META = {
         "design_ref": "DESIGN.md §2 C04",
         "text": "Two real Peering instances run the real handleSetup (hook VerifSetupLink) over an in-memory connection whose every message the harness sees and whose every read it feeds; executions are made deterministic by a synctest bubble (quiescence instead of timeouts). Configurations: identity pairs incl. self-connection x universe {same, different, empty} x secret {same, different, only A, only B, none}. Faults per message: every bit of every byte (one configuration in full; others header/edges/signature), truncation to every length, drop, duplicate, replay of the same-position message of a previous complete session of the same pair, reflection to the sender - under both dispatch orders of simultaneous messages. Oracles: a registered link names the true peer and the configuration admits it (same universe; own secret => peer proved it); the receiver of an altered/truncated/replayed/reflected message registers nothing; without fault both ends register and three frames per direction sent through the link arrive byte-identical. An active impostor with its own key pair speaks the full protocol claiming another router's address over connection sequences (forged key first, then the genuine address; victim known/unknown): no link may ever be registered.",
         "note": "Length-prefix and TTL/flow bits are unauthenticated; for them only the safety oracle applies. The adversary holds no honest private key. Swaps of messages within one direction are causally impossible in this lock-step protocol and therefore not enumerated.",
+    },
+    "C05": {
+        "engine": "meshx (real links)",
+        "technique": "exhaustive fault enumeration on the byte stream of a real established link (synctest bubble, adversary-owned connection)",
+        "design_ref": "DESIGN.md §2 C05",
+        "text": "Per execution a real link pair is established by the real handshake; the sender hands frames (4 message types x 6 sizes up to the 10000-byte maximum, priority and regular queues, both directions) to the real link object, the adversary holds the written link frames and feeds the receiver's real reader a manipulated stream: every bit of every byte of two small link frames (prefix, header, ciphertext, MAC) and one bit per byte of a 1500-byte frame, truncation at every offset, all words of length <= 2 (thorough 3) over {dup, drop, swap} on three frames, replays, a spliced frame of the reverse direction, well-framed garbage with every length prefix 0..40 in three fill patterns, raw injected bytes of nine lengths; then two intact frames follow. Oracles: everything reaching the remote frame-handler channel is byte-identical to a handed frame and arrives at most once; untouched frames still arrive when framing is intact; afterwards intact frames arrive or the link is closing; no worker panic (worker-panic alerts of the module manager); no 8-byte window of any payload on the wire.",
+        "note": "Faults that destroy stream framing (truncation, length-prefix flips, raw injections) are judged by the safety oracles only. One link per execution; concurrency between reader and writer is bounded by bubble quiescence between adversary actions.",
     },
     "C06": {
         "engine": "meshx",
